@@ -1,6 +1,6 @@
 HOOK_COMMITS = []
 _PENDING = "check not built yet in this round (planned, see DESIGN.md section 9); not a statement that the technique cannot apply"
-NOT_APPLICABLE = {p: _PENDING for p in ["C01","C02","C03","C04","C05","C06","C07","C08","C09","C10","C11","C12","C13","C16","C18","C19","C20"]}
+NOT_APPLICABLE = {p: _PENDING for p in ["C01","C02","C03","C04","C05","C06","C07","C08","C09","C10","C11","C12","C16","C18","C19","C20"]}
 TEXT = {
  "C17": {
   "text": "Lean mirror of integer.h / dyadic_rational.h / rational.h; theorems for every modulus m>=2 and every operand state that each "
@@ -29,6 +29,18 @@ TEXT = {
           "constraint feasible sets are not yet in this check.",
   "design_ref": "5.14",
   "note": "size/isPoint/eq and the in-range claim of value picking are tied by (exhaustive) correspondence only, not yet proved; qsort modelled as sorted insertion",
+  "technique": "Lean 4 proof over mirror model + exhaustive/differential correspondence harness",
+ },
+ "C13": {
+  "text": "Lean mirror of interval comparison-with-intersection, feasibility-set intersection with status, union by sort-and-merge, "
+          "binary-search membership, integer containment/counting. Proved for every ordered field (incl. R), all intervals: the 9-way "
+          "comparison returns exactly the intersection (none iff disjoint) and names the true relation of the upper bounds; the "
+          "intersection sweep denotes exactly the intersection of the operands for all lists of non-empty, increasing, disjoint "
+          "intervals; the interval membership test agrees with the denoted set. Union, status bits, normal form of results, integer "
+          "counts and picking are tied by correspondence only (exhaustive over all 128x128 normal-form sets on the atoms of {0,1,2}, "
+          "512x512 in the thorough tier, plus random pools with algebraic end points).",
+  "design_ref": "5.13",
+  "note": "union/status/NF-of-result theorems not yet proved (kept as correspondence); algebraic end points enter the model as order-isomorphic dyadic surrogates chosen by the harness",
   "technique": "Lean 4 proof over mirror model + exhaustive/differential correspondence harness",
  },
 }
